@@ -162,6 +162,13 @@ class FortranAST:
         ech : int
             End character
         """
+        # The columns may come from a statement joined over continuation lines,
+        # keep the range inside the line it is reported on
+        line = self.file.get_line(ln - 1) if self.file is not None else None
+        if line is not None:
+            sch = max(0, min(sch, len(line)))
+            if ech is not None:
+                ech = max(sch, min(ech, len(line)))
         # Convert from Editor line numbers 1-base index to LSP index which is 0-based
         self.parse_errors.append(diagnostic_json(ln - 1, sch, ln - 1, ech, msg, sev))
 
